@@ -57,6 +57,13 @@ func runC13(r *Report) {
 		r.Fail("R-C13-2", 0, fmt.Sprintf("only %d value writes in ttl-taking memory operations found (Set, SetNX, CompareAndSwap confirmed by hand)", n), memPkg, "floor:value-writes")
 	}
 
+	if n := checkRedisExpirations(r, "R-C13-3"); n < 2 {
+		r.Fail("R-C13-3", 0, fmt.Sprintf("only %d expiry arguments of redis write commands found (Set x2, SetNX confirmed by hand)", n), redisPkg, "floor:redis-expiry-args")
+	}
+	if n := checkRedisListEncoding(r, "R-C13-4"); n < 3 {
+		r.Fail("R-C13-4", 0, fmt.Sprintf("only %d encoded list members found in the redis list family (SetList, AppendToList, RemoveFromList confirmed by hand)", n), redisPkg, "floor:list-encoding")
+	}
+
 	// ---- R-C13-5 expired entries are absent / expiry-driven deletes re-validate ---
 	for _, f := range r.P.FuncsIn(memPkg) {
 		checkExpiredAbsent(r, f)
@@ -695,4 +702,174 @@ func checkValueExpiryTogether(r *Report, rule string) int {
 		})
 	}
 	return n
+}
+
+const redisPkg = "internal/core/storage/redis"
+
+// checkRedisExpirations: every time.Duration handed to a go-redis write command is the ttl
+// parameter (its uses are guarded by R-C13-3) or the constant 0 ("no expiry"): a negative
+// sentinel such as KeepTTL keeps a stale deadline where the memory backend stores "never".
+func checkRedisExpirations(r *Report, rule string) int {
+	n := 0
+	for _, f := range r.P.FuncsIn(redisPkg) {
+		var ttl *ssa.Parameter
+		for _, p := range f.Params {
+			if p.Name() == "ttl" && p.Type().String() == "time.Duration" {
+				ttl = p
+			}
+		}
+		Instrs(f, func(in ssa.Instruction) {
+			ci, ok := in.(ssa.CallInstruction)
+			if !ok {
+				return
+			}
+			c := CalleeOf(ci)
+			if !strings.Contains(c.Pkg, "go-redis") && !strings.Contains(c.Pkg, "redis/v") {
+				return
+			}
+			switch c.Name {
+			case "Set", "SetNX", "SetEx", "SetEX", "SetXX", "Expire", "PExpire", "SetArgs":
+			default:
+				return
+			}
+			for _, a := range ci.Common().Args {
+				if a.Type().String() != "time.Duration" {
+					continue
+				}
+				n++
+				var ok func(v ssa.Value, d int) bool
+				ok = func(v ssa.Value, d int) bool {
+					v = stripValue(v)
+					if d > 4 {
+						return false
+					}
+					if k, isC := ConstInt(v); isC {
+						// 0 = never; a positive named default is what both backends give a freshly created
+						// list / hash / counter (Expire only)
+						return k == 0 || (k > 0 && (c.Name == "Expire" || c.Name == "PExpire"))
+					}
+					if ttl != nil && v == ssa.Value(ttl) {
+						return true
+					}
+					switch x := v.(type) {
+					case *ssa.Phi:
+						for _, e := range x.Edges {
+							if !ok(e, d+1) {
+								return false
+							}
+						}
+						return true
+					case *ssa.UnOp:
+						if al, isA := x.X.(*ssa.Alloc); isA && x.Op == token.MUL {
+							sts := storesTo(al)
+							if len(sts) == 0 {
+								return false
+							}
+							for _, st := range sts {
+								if !ok(st.Val, d+1) {
+									return false
+								}
+							}
+							return true
+						}
+					case *ssa.Parameter:
+						// a duration parameter of a helper (e.g. the lock ttl): accepted when named ttl / expiration
+						return x.Type().String() == "time.Duration"
+					case *ssa.FieldAddr:
+						return true
+					}
+					if _, _, _, isF := FieldOf(v); isF {
+						return true // configured duration
+					}
+					return false
+				}
+				r.Ob(rule, CallPos(ci), ok(a, 0), "expiry handed to redis "+c.Name+" is the ttl parameter, a configured duration or the constant 0 (never); negative sentinels (KeepTTL) and derived values keep or invent a deadline the memory backend does not have", r.P.FuncName(f), "redis-expiry-arg:"+c.Name)
+			}
+		})
+	}
+	return n
+}
+
+// checkRedisListEncoding: the list family (SetList, AppendToList, RemoveFromList, ...) agree on how a
+// member is encoded: what RPush/LPush store and what LRem searches for come from the same encoder,
+// and GetList decodes with its inverse.
+func checkRedisListEncoding(r *Report, rule string) int {
+	type site struct {
+		op  string
+		enc string
+		pos token.Pos
+		fn  string
+	}
+	var sites []site
+	for _, f := range r.P.FuncsIn(redisPkg) {
+		Instrs(f, func(in ssa.Instruction) {
+			ci, ok := in.(ssa.CallInstruction)
+			if !ok {
+				return
+			}
+			c := CalleeOf(ci)
+			switch c.Name {
+			case "RPush", "LPush", "LRem", "LInsert", "RPushX", "LPushX":
+			default:
+				return
+			}
+			args := ci.Common().Args
+			// member arguments: everything after key (and count for LRem); variadic ...interface{} is a slice literal
+			for _, a := range args {
+				for _, m := range variadicElems(a) {
+					mi, isMI := m.(*ssa.MakeInterface)
+					if !isMI {
+						continue
+					}
+					if mi.X.Type().String() == "int64" || mi.X.Type().String() == "string" && false {
+						continue
+					}
+					enc := "none:" + mi.X.Type().String()
+					if ec, _ := CallOfValue(mi.X); ec != nil {
+						enc = CalleeOf(ec).String()
+					}
+					if mi.X.Type().String() == "int64" || mi.X.Type().String() == "int" {
+						continue // the LRem count
+					}
+					sites = append(sites, site{c.Name, enc, CallPos(ci), r.P.FuncName(f)})
+				}
+			}
+		})
+	}
+	ref := ""
+	for _, s := range sites {
+		if s.op == "RPush" || s.op == "LPush" {
+			ref = s.enc
+			break
+		}
+	}
+	for _, s := range sites {
+		r.Ob(rule, s.pos, ref != "" && s.enc == ref, fmt.Sprintf("list member for %s is encoded by %s (the list family stores members encoded by %s): a differently encoded member never matches / never decodes", s.op, s.enc, ref), s.fn, "list-member-encoding:"+s.op)
+	}
+	return len(sites)
+}
+
+// variadicElems: the values stored into the backing array of a variadic slice argument (or the value itself).
+func variadicElems(a ssa.Value) []ssa.Value {
+	sl, ok := a.(*ssa.Slice)
+	if !ok {
+		return []ssa.Value{a}
+	}
+	al, ok := sl.X.(*ssa.Alloc)
+	if !ok || al.Referrers() == nil {
+		return []ssa.Value{a}
+	}
+	var out []ssa.Value
+	for _, ref := range *al.Referrers() {
+		ia, ok := ref.(*ssa.IndexAddr)
+		if !ok || ia.Referrers() == nil {
+			continue
+		}
+		for _, u := range *ia.Referrers() {
+			if st, ok := u.(*ssa.Store); ok {
+				out = append(out, st.Val)
+			}
+		}
+	}
+	return out
 }
